@@ -783,6 +783,12 @@ func corpus() []*Case {
 			{K: "csg", DB: 1, RP: 1, TS: Base}, {K: "csg", DB: 2, RP: 1, TS: Base}, {K: "csg", DB: 1, RP: 2, TS: Base}, {K: "csg", DB: 3, RP: 2, TS: Base},
 			{K: "cnode", H: 2, T: 2}, {K: "expand"}, {K: "csg", DB: 2, RP: 1, TS: Base + 3*Hour},
 		}),
+		// a measurement re-created under its old name with another sharding type, the old version still in the policy
+		scripted("recreated-measurement-other-sharding-type", 2, 6, 0, []Cmd{
+			{K: "cnode", H: 1, T: 1}, {K: "cdb", DB: 1, HasRP: true, RP: 1, D: i64(0), SGD: i64(Hour)},
+			{K: "cmst", DB: 1, RP: 1, M: 1}, {K: "markmst", DB: 1, RP: 1, M: 1}, {K: "cmst", DB: 1, RP: 1, M: 1, X: "range"},
+			{K: "csg", DB: 1, RP: 1, TS: Base}, {K: "csg", DB: 1, RP: 1, TS: Base + 2*Hour},
+		}),
 		// the partition view must be copied down to its entries: a status change applied while the snapshot is being
 		// written must not show up in it
 		scripted("delayed-persist-ptview", 2, 4, 2, []Cmd{
